@@ -151,6 +151,18 @@ func verifCheckDecode(c *Codec, rs CodeSpaceRange, probe []byte) {
 		verifrt.Assert(same, "decode then encode is the identity")
 		code2, n2, v2 := c.Decode(out)
 		verifrt.Assert(code2 == code && n2 == consumed && v2 == valid, "encode then decode is the identity")
+	} else {
+		// truncated input: the returned code still holds the consumed bytes
+		// (re-encoding it starts with them)
+		out := c.AppendCode(nil, code)
+		verifrt.Assert(len(out) >= consumed, "re-encoded truncated code is at least as long as the consumed bytes")
+		same := true
+		for i := 0; i < consumed && i < len(out); i++ {
+			if out[i] != probe[i] {
+				same = false
+			}
+		}
+		verifrt.Assert(same, "re-encoding a truncated code reproduces the consumed bytes")
 	}
 }
 
